@@ -77,17 +77,19 @@ impl Writer {
                 need,
                 block.limit
             );
-            FileStateTracker::set_block_unlocked(block.id as usize);
-            let mut sealed = block.clone();
-            sealed.used = *cur;
-            sealed.mmap.flush()?;
-            let _ = self.reader.append_block_to_chain(&self.col, sealed);
-            debug_print!("[writer] appended sealed block to chain: col={}", self.col);
-            // switch to new block
+            // Everything that can fail comes first: a rejected or failed append must not leave the
+            // old block sealed into the reader chain while it is still the writer's active block.
+            block.mmap.flush()?;
             // SAFETY: We hold `current_block` and `current_offset` mutexes, so
             // this writer has exclusive ownership of the active block. The
             // allocator's internal lock ensures unique block handout.
             let new_block = unsafe { self.allocator.alloc_block(need) }?;
+            FileStateTracker::set_block_unlocked(block.id as usize);
+            let mut sealed = block.clone();
+            sealed.used = *cur;
+            let _ = self.reader.append_block_to_chain(&self.col, sealed);
+            debug_print!("[writer] appended sealed block to chain: col={}", self.col);
+            // switch to new block
             debug_print!(
                 "[writer] switched to new block: col={}, new_block_id={}",
                 self.col,
